@@ -77,6 +77,7 @@ def run(rep):
     covered, skipped = [], []
     ex = common.executor(unwind=3, features=('c-api',))
     ex.auto_havoc = True
+    ex.auto_invoke_closures = True
     ex.execute_real = [re.compile(r'^(ffi::|c_str_to_str|TsRun\w+::|\w+_to_\w+$)')]
     install(ex)
     for name in names:
